@@ -221,6 +221,14 @@ def run(run, tier, loadcfg):
                             writers.add(body['path'])
             run.check(writers <= {'dasp_graph::Processor::<G>::with_capacity'}, 'heap.processor-storage', 'dasp_graph::Processor', cfg,
                       'the processor\'s reusable storage (inputs, traversal state) is replaced outside its constructor by %s' % sorted(writers - {'dasp_graph::Processor::<G>::with_capacity'}))
+    # bus clause: "whose backlog nevertheless stops growing once its outputs are pulled in step" — structural part:
+    # next_frame pops the front frame exactly when this output is the least reader (a lone output always is) and the
+    # drop path trims; these are the C13 step-function rules, re-evaluated here because C07 states the clause too.
+    facts = loadcfg('std-debug')
+    if facts.body('dasp_signal::bus::SharedNode::<S>::next_frame') is not None:
+        from rules import C13
+        cxb = Ctx(facts)
+        C13.check_next_frame(run, cxb, 'std-debug:bus-clause')
     # positive control: the classifier is not blind
     run.check(total_controls >= 20, 'heap.positive-control', 'exception table', 'all', 'the classifier flagged only %d allocating call sites inside the exception table (expected >= 20: Rc::new, VecDeque::push_back, BTreeMap::insert, Box::new, vec!, Box::from_raw ...): it may be blind' % total_controls,
               sample={'allocating call sites seen inside the exception table': total_controls})
